@@ -3,10 +3,12 @@
 # check of its property against that tree (FRGV_REPO), appends "<seed>\t<outcome>\t<obligation>\t<message>" and reverts.
 out=$1; shift
 cd /verif
+mkdir -p /tmp/seed
 H=$(git -C /repo rev-parse HEAD)
 for s in "$@"; do
   p=${s%%-*}
   wt=/tmp/seed/$p
+  [ -d $wt ] || git -C /repo worktree add -q --detach $wt HEAD   # scratch worktree outside /repo and /verif; remove with: git -C /repo worktree remove --force $wt
   git -C $wt checkout -q -- . 2>/dev/null; git -C $wt checkout -q --detach $H 2>/dev/null
   if ! git -C $wt apply /verif/seeded/$s/patch.diff 2>/dev/null; then printf "%s\tpatch does not apply to the repaired tree\t-\t-\n" $s >> $out; continue; fi
   res=$(FRGV_REPO=$wt timeout 3400 python3 vp.py check $p --tier quick 2>&1); rc=$?
